@@ -393,7 +393,7 @@ def planted_cases():
                 elif attr == "values-convertible":
                     if dn["dtype"] not in ("int", "float"):
                         continue
-                    sn["dtype"], sn["values"] = "string", ["41", "42"]
+                    sn["dtype"], sn["values"] = "string", ["41", "42", "2.5e3", "-3.2e1", "1.25E2"]
                 else:
                     basev = {"uncertainty": 0.25}.get(attr, "Some Text")
                     other = {"uncertainty": 0.75}.get(attr, "Another text")
